@@ -125,7 +125,16 @@ CtypesClauses(T) ==
   IF l.size = T.obs.layout.size /\ l.offs = T.obs.layout.offs /\ (T.mode.align => l.align = T.obs.layout.align)   \* a packed C struct has alignment 1
   THEN {} ELSE {"SPECBUG:CLayout-differs-from-the-C-ABI"}
 
+\* Two readers of one definition whose layout the specification does not model (explicit, possibly overlapping offsets given to
+\* add_field): C03 still says that the compiled and the interpreted reader agree on everything they return.
+ReadersClauses(T) ==
+  (IF T.obs.layout2 # T.obs.layout THEN {"equiv-layout"} ELSE {})
+  \cup (IF T.obs.res.status = T.obs.res2.status
+           /\ (T.obs.res.status = "ok" => T.obs.res.v = T.obs.res2.v /\ T.obs.res.pos = T.obs.res2.pos /\ SizesEq(T.obs.res.sizes, T.obs.res2.sizes))
+        THEN {} ELSE {"equiv"})
+
 Verdict(T) == CASE T.kind = "parse" -> ParseClauses(T)
+                [] T.kind = "readers" -> ReadersClauses(T)
                 [] T.kind = "ctypes" -> CtypesClauses(T)
                 [] T.kind = "commits" -> CommitClauses(T)
                 [] T.kind = "value" -> ValueClauses(T)
